@@ -479,6 +479,33 @@ def r5_burst_len(L, repo, members):
                   ["self.usbit2sbit(%s)" % PB], rets)
 
 
+def r6b_decoded_ownership(L, repo):
+    """R6 (a decoded message keeps its own field values): what parse_burst() stores in `self.burst` is created during
+    the call.  parse_msg() hands it a memoryview of the datagram; a slice of that argument (or the argument itself) is a
+    VIEW of the caller's receive buffer - the burst of a message that is still held (the transmit queue holds them
+    for two frames) would change when the buffer is reused for the next datagram."""
+    n = 0
+    for cname in ("TxMsg", "RxMsg"):
+        ci = repo.need_class("data_msg", cname)
+        c, m = repo.find_method(ci, "parse_burst")
+        if m is None:
+            raise AnalysisError("%s.parse_burst vanished" % cname)
+        stores = [x for x in ast.walk(m) if isinstance(x, ast.Assign) and any(canon(t) == "self.burst" for t in x.targets)]
+        L.floor("C01.R6", "stores to self.burst in %s.parse_burst" % cname, len(stores), 1)
+        fn = "%s.parse_burst" % cname
+        L.fn(F, fn)
+        for st in stores:
+            kinds = list(return_origins(repo, c, m, exprs=[st.value]))
+            n += 1
+            bad = [(k, t) for k, _n, t, _e in kinds if k in ("param", "shared")]
+            unk = [(k, t) for k, _n, t, _e in kinds if k == "unknown"]
+            if unk and not bad:
+                raise AnalysisError("%s: ownership of `%s` is not classifiable (%s)" % (fn, canon(st.value)[:50], unk[0][1]))
+            L.ob("C01.R6", F, fn, "the decoded burst `%s` is storage created by the decoder (not a view of the datagram handed in)" % canon(st.value)[:60],
+                 "fresh object (bytearray(...), array(...), a conversion helper's result)", sorted({t for k, t in bad})[:3] or "fresh", not bad, st.lineno)
+    return n
+
+
 def r6_ownership(L, repo):
     """R6: the datagram returned by gen_msg() belongs to the caller. A message encoded earlier must still decode
     to its own field values after any later encode, so gen_msg may not hand out storage that outlives the call
@@ -510,5 +537,6 @@ def run(L, tier):
     members = L.stage(r4_mts, L, repo)
     L.stage(r5_burst_len, L, repo, members)
     L.stage(r6_ownership, L, repo)
+    L.stage(r6b_decoded_ownership, L, repo)
     from pyutil import memo_sound
     L.stage(memo_sound, L, repo, "C01.R7", ("data_msg", "gsm_shared"))
